@@ -28,6 +28,10 @@ func checkC02(c *Ctx) {
 	c02Dispatchers(c)
 	c02Pairing(c)
 	c02Determinism(c)
+	// concurrent/fresh-context runs must agree on label identity: the
+	// process-wide interning table inserts atomically (re-check under the
+	// write lock). Shared with C19.
+	c19Recheck(c, rtP, "getKey", []string{"labelMap", "labels"}, "mutex")
 }
 
 func c02Dispatchers(c *Ctx) {
